@@ -723,11 +723,15 @@ func (e *Env) quant(x *SQuant) Val {
 		}
 	}
 	if len(x.Triggers) > 0 {
-		var ts []string
-		for _, tr := range x.Triggers {
-			ts = append(ts, rawStringFuns(ne.rvalue(ne.eval(tr)).T.S))
+		var pats []string
+		for _, grp := range x.Triggers {
+			var ts []string
+			for _, tr := range grp {
+				ts = append(ts, rawStringFuns(ne.rvalue(ne.eval(tr)).T.S))
+			}
+			pats = append(pats, ":pattern ("+strings.Join(ts, " ")+")")
 		}
-		return boolVal(fmt.Sprintf("(%s (%s) (! %s :pattern (%s)))", q, strings.Join(binders, " "), b, strings.Join(ts, " ")))
+		return boolVal(fmt.Sprintf("(%s (%s) (! %s %s))", q, strings.Join(binders, " "), b, strings.Join(pats, " ")))
 	}
 	if pats := inferPatterns(b, names); pats != "" && x.Forall {
 		return boolVal(fmt.Sprintf("(%s (%s) (! %s %s))", q, strings.Join(binders, " "), b, pats))
